@@ -57,6 +57,15 @@ theorem coarseObs_sublist {P : Progs} {k : Svc} {c : State} {rs : List Res} (h :
     | cons_cons _ h' => exact .sample (ih _ h')
   | step hst _ ih => intro rs' hs; exact .step hst (ih _ hs)
 
+
+theorem view_frame (ss : Bool) (fs : FState) (L : Loop) (th : Thread) (b : State) (o : List (Tid × Res))
+    (hl : fs.loop = some L) (h1 : fs.base.threads L.t = some th) (h1' : b.threads L.t = some th)
+    (hr : b.routes = fs.base.routes) (hw : b.waiting = fs.base.waiting) (hv : b.svcRoutes = fs.base.svcRoutes) :
+    (FState.view ss { fs with base := b, obs := o }).routes = (fs.view ss).routes := by
+  simp only [FState.view, hl, h1, h1']
+  have hd : delWaiting b th = delWaiting fs.base th := by unfold delWaiting; rw [hw]
+  cases hk : L.kind <;> simp [viewOf, hk, hd, hr, hw, hv]
+
 /-- the abstract simulation argument: one-step coherence gives the run-level statement -/
 theorem fine_run_sim {P : Progs} (hP : P.wf = true) (k : Svc)
     (coh : ∀ fs l fs1, Reachable (fstep P) finit fs → fstep P fs l = some fs1 → StepCoh P k fs fs1 l) :
